@@ -75,7 +75,9 @@ func (rt *RoundTripper) cacheResponse(req *http.Request, resp *http.Response) {
 	}
 
 	if expires.IsZero() {
-		if rt.DefaultCacheTTL == 0 {
+		// RFC 7234, section 5.3: an invalid Expires value (especially "0") represents a time in the past,
+		// meaning the response is already expired
+		if rt.DefaultCacheTTL == 0 || len(resp.Header.Get("Expires")) != 0 {
 			return
 		}
 
